@@ -171,6 +171,9 @@ type c19Scen struct {
 	Users []string  `json:"users"`
 	Steps []c19Step `json:"steps"`
 	After []c19Step `json:"after"`
+	// Bulk further accounts ("fill-00" …) are created through the account API before the history starts; every one
+	// of them is probed before and after every restart like the three named users
+	Bulk int `json:"bulk,omitempty"`
 }
 
 var c19UserPool = []string{"alice", "Alice", "alic", "alicex", "bob", "Ünï", "用户", "a b", "null", "~", "123", "true", "a: b", "- x", "#c",
@@ -241,6 +244,9 @@ func genC19(t *rapid.T) c19Scen {
 		Loc:  rapid.SampledFrom([]string{"abs", "rel_cwd", "rel_other"}).Draw(t, "loc"),
 	}
 	s.Users = rapid.SliceOfNDistinct(rapid.SampledFrom(c19UserPool), 3, 3, rapid.ID[string]).Draw(t, "users")
+	if s.Hash != auth.Bcrypt {
+		s.Bulk = rapid.SampledFrom([]int{0, 0, 0, 0, 5, 16, 17, 18, 25, 45}).Draw(t, "bulk")
+	}
 	n := rapid.IntRange(1, 20).Draw(t, "nsteps")
 	for i := 0; i < n; i++ {
 		switch k := rapid.IntRange(0, 19).Draw(t, "kind"); {
@@ -403,6 +409,17 @@ func runC19(s c19Scen, c *ev.Case) *ev.Violation {
 	m := &c19Model{cur: map[string]string{}, last: map[string]string{}, prev: map[string]*string{}, touched: map[string]bool{}}
 	attempt := 0
 	nontrivial := false
+	for k := 0; k < s.Bulk; k++ {
+		u, pw := fmt.Sprintf("fill-%02d", k), fmt.Sprintf("fp-%02d", k)
+		if _, err := a.Update(context.Background(), &auth.UpdateAccountRequest{Username: u, Password: pw}); err != nil {
+			return ev.Violf("C19.api-effect", "Update(%q, %q) returned an error: %v", u, pw, err).With("hash", s.Hash, "loc", s.Loc)
+		}
+		users = append(users, u)
+		m.cur[u], m.last[u] = pw, pw
+	}
+	if s.Bulk > 0 {
+		c.Label(fmt.Sprintf("bulk_accounts_%d", s.Bulk))
+	}
 
 	doConnect := func(st c19Step, phase string) *ev.Violation {
 		attempt++
